@@ -13,7 +13,7 @@ import ast
 
 from .. import pump
 from ..cfg import CFG
-from ..project import AnalysisError, call_name, norm, walk_no_nested
+from ..project import AnalysisError, call_name, norm, walk_no_nested, order
 from ..roles import CONSTRAINTS
 
 
@@ -236,7 +236,7 @@ def check(run, project):
             h = getattr(h, "_parent", None)
         att = [c for c in ast.walk(h) if isinstance(c, ast.Call) and isinstance(c.func, ast.Attribute)
                and c.func.attr == "set_bytes_remaining"] if h is not None else []
-        ok = bool(att) and att[0].lineno < node.ast.lineno and isinstance(node.ast.exc, ast.Name) and \
+        ok = bool(att) and order(att[0]) < order(node.ast) and isinstance(node.ast.exc, ast.Name) and \
             h.name == node.ast.exc.id and norm(att[0].func.value) == h.name
         run.ob("A2", ok, f"re-raise at L{node.lineno} attaches remaining bytes to the same error first",
                "constraint error leaves the pump without its remaining bytes attached", module=mod, node=node,
